@@ -24,9 +24,11 @@ OutWhy(rec, D, o) ==
   ELSE (IF ~o.ok THEN {"rejected_what_the_reference_merges"}
         ELSE IF Norm(o.schema) # Gateway(D) THEN {"merged_schema_differs_from_reference"} ELSE {})
        \cup (IF ~o.convok THEN {"convert_rejected_what_the_reference_merges"}
+             \* (the driver finds fields by walking the converted schema from Query: a type that no Query field reaches
+             \*  any more - e.g. its only root field was dropped by the intersection - has no entry and is not compared)
              ELSE IF \E tf \in FieldsOf(Gateway(D)) :
                         LET k == tf[1] \o "." \o tf[2] IN
-                        k \notin DOMAIN o.services \/ Rng(o.services[k]) # Resolvers(D, tf[1], tf[2])
+                        IF k \in DOMAIN o.services THEN Rng(o.services[k]) # Resolvers(D, tf[1], tf[2]) ELSE tf[1] = "Query"
                   THEN {"field_services_differ_from_reference"} ELSE {})
 
 Why(rec) ==
